@@ -61,6 +61,7 @@ class Ctx:
         self.nontrivial = False
         self.sample = None
         self.excluded = None
+        self.weakened = None
         self.evals = 1
 
     def label(self, *names):
@@ -76,6 +77,10 @@ class Ctx:
     def exclude(self, key):
         """Case belongs to a recorded known finding: counted, not checked."""
         self.excluded = key
+
+    def weaken(self, key):
+        """One clause of this case falls in a recorded known finding: counted; the rest was checked."""
+        self.weakened = key
 
     class _Lib:
         def __init__(self, what, allow):
@@ -156,6 +161,8 @@ class Result:
         self.evaluations += ctx.evals
         for l in ctx.labels:
             self.classes[l] = self.classes.get(l, 0) + 1
+        if ctx.weakened:
+            self.excluded[ctx.weakened] = self.excluded.get(ctx.weakened, 0) + 1
         if ctx.excluded:
             self.excluded[ctx.excluded] = self.excluded.get(ctx.excluded, 0) + 1
             return
